@@ -368,7 +368,7 @@ func c09Retention(c *fw.Ctx) {
 			for i := range ages {
 				ages[i] = ageOld
 			}
-			store := &preloadedStore{cat: craftedOplog(ages)}
+			store := &failStore{cat: craftedOplog(ages)}
 			client, engine, err := lungo.Open(nil, lungo.Options{Store: store, ExpireInterval: 1 << 40, MinOplogSize: minSize, MaxOplogSize: maxSize, MinOplogAge: 5 * time.Minute, MaxOplogAge: time.Hour})
 			if err != nil {
 				c.Inconclusive("open: " + err.Error())
@@ -432,11 +432,22 @@ func c09Retention(c *fw.Ctx) {
 					open(k)
 				}
 			}
+			spurious := false
 			consume := func(st *rs, max int) {
 				for i := 0; i < max && !st.done; i++ {
 					if !st.s.TryNext(ctx) {
 						if err := st.s.Err(); err != nil {
 							st.err, st.done = err, true
+							// a lost position is only legitimate if the next undelivered
+							// event really is gone from the visible change log right now
+							if next := st.start + len(st.got); errors.Is(err, lungo.ErrLostOplogPosition) && next < len(full) {
+								for _, e := range oplogEvents(engine.Catalog()) {
+									if evID(e) == evID(full[next]) {
+										spurious = true
+										c.Violate("retention-stream:spurious-lost-position", fmt.Sprintf("a stream (%s) reported a lost position although its next undelivered event (number %d of the history) is still in the change log", st.kind, next), desc)
+									}
+								}
+							}
 						}
 						return
 					}
@@ -453,6 +464,26 @@ func c09Retention(c *fw.Ctx) {
 						consume(st, r.Range(1, 2))
 					}
 				}
+				// sometimes the store fails on a commit that would have trimmed the log:
+				// that commit never happened, for streams too
+				if r.Chance(1, 4) {
+					store.failNext()
+					fop := drv.Op{Kind: drv.InsertOne, DB: "d", Coll: "c", Docs: []bson.D{{{Key: "_id", Value: int32(5000 + k)}}}}
+					if res := drv.Exec(ctx, client, &fop); res.Err == "" {
+						c.Violate("retention-stream:store-failure-ignored", "the store failed but the insert reported success", desc)
+						return
+					}
+					c.Count("failed_trimming_commits", 1)
+					// nothing was committed: consumers reading now must not notice anything
+					for _, st := range streams {
+						if r.Bool() {
+							consume(st, 1)
+						}
+					}
+					if spurious {
+						return
+					}
+				}
 				op := drv.Op{Kind: drv.InsertOne, DB: "d", Coll: "c", Docs: []bson.D{{{Key: "_id", Value: int32(1000 + k)}}}}
 				if res := drv.Exec(ctx, client, &op); res.Err != "" {
 					c.Violate("retention-stream:write", "insert failed: "+res.Err, desc)
@@ -460,9 +491,8 @@ func c09Retention(c *fw.Ctx) {
 				}
 				record()
 			}
-			present := map[string]bool{}
-			for _, e := range oplogEvents(engine.Catalog()) {
-				present[evID(e)] = true
+			if spurious {
+				return
 			}
 			for _, st := range streams {
 				consume(st, 1000)
